@@ -45,10 +45,10 @@ def _w(names, wgt, base=None, rest=0.3):
 
 
 H5_ALPHAS = ['ascii', 'ascii', 'num', 'punct', 'slash', 'unicode', 'long',
-             'natsort', 'ws']
+             'natsort', 'ws', 'labels']
 # metadata categories allowed where the table travels to HDF5 (C01 grammar):
 # indices into values.MD_CATS (note 'ph' float, 'depth' int, 'flag' bool)
-H5_CATS = [0, 1, 2, 3, 4, 5, 6, 8, 14, 15]
+H5_CATS = [0, 1, 2, 3, 4, 5, 6, 8, 14, 15, 17]
 
 PROFILES = {
     'C05': {
@@ -158,9 +158,9 @@ for pid, probes, extra in (
     }, **extra)
 PROFILES['C02'] = {
     'name': 'C02', 'ops': {o: 1.0 for o in ALL_OPS},
-    'md_cats': list(range(17)),
+    'md_cats': list(range(18)),
     'alphas': ['ascii', 'num', 'punct', 'slash', 'unicode', 'long', 'ctrl',
-               'ctrl', 'ws'], 'ctrl_md': 0.6,
+               'ctrl', 'ws', 'labels'], 'ctrl_md': 0.6,
     'vfams': ['wild', 'wild', 'exact', 'counts', 'tiny'],
     'kinds': {'op': 5, 'perturb': 4, 'read': 1, 'probe': 3.0},
     'lens': [4, 6, 10, 16, 24], 'probes': {'c02_json': 1.0},
@@ -168,10 +168,10 @@ PROFILES['C02'] = {
 PROFILES['C03'] = {
     'name': 'C03', 'ops': {o: 1.0 for o in ALL_OPS},
     'alphas': ['ascii', 'num', 'punct', 'slash', 'unicode', 'long',
-               'natsort'],
+               'natsort', 'labels'],
     'vfams': ['wild', 'wild', 'exact', 'counts', 'tiny'],
     'kinds': {'op': 5, 'perturb': 4, 'read': 1, 'probe': 3.0},
-    'md_cats': list(range(10)) + [14, 15, 16, 16],
+    'md_cats': list(range(10)) + [14, 15, 16, 16, 17],
     'lens': [4, 6, 10, 16, 24], 'probes': {'c03_tsv': 1.0},
 }
 PROFILES['C20'] = {'name': 'C20', 'engine': 'c20'}
